@@ -24,9 +24,9 @@ import (
 
 type runSpec struct {
 	Input         any    `json:"input"`
-	InputYAML     string `json:"input_yaml"` // engine mode: the input file content
-	CancelAfterMS int `json:"cancel_after_ms"` // 0 = never by timer (triggers may still cancel)
-	StartDelayMS  int `json:"start_delay_ms"`
+	InputYAML     string `json:"input_yaml"`      // engine mode: the input file content
+	CancelAfterMS int    `json:"cancel_after_ms"` // 0 = never by timer (triggers may still cancel)
+	StartDelayMS  int    `json:"start_delay_ms"`
 }
 
 type scenario struct {
@@ -39,7 +39,7 @@ type scenario struct {
 	TimeoutMS  int                    `json:"timeout_ms"`
 	TraceOut   string                 `json:"trace_out"`
 	ResultOut  string                 `json:"result_out"`
-	PrepareN   int                    `json:"prepare_n"` // prepare the workflow this many extra times (unused copies)
+	PrepareN   int                    `json:"prepare_n"`        // prepare the workflow this many extra times (unused copies)
 	PreparePar int                    `json:"prepare_parallel"` // additionally prepare it this many times concurrently
 	SettleMS   int                    `json:"settle_ms"`
 	MaxStackMB int                    `json:"max_stack_mb"`
@@ -50,15 +50,15 @@ type scenario struct {
 }
 
 type runResult struct {
-	OutputID  string            `json:"output_id"`
-	Flat      []leaf            `json:"flat"`
-	DType     string            `json:"dtype"`
-	Err       string            `json:"err"`
-	IsErr     bool              `json:"is_err"`
-	ErrFlag   bool              `json:"err_flag"` // engine mode: the outputIsError flag
-	ElapsedMS float64           `json:"elapsed_ms"`
-	CancelMS  float64           `json:"cancel_ms"` // time of caller cancellation relative to run start, -1 if none
-	AfterMS   float64           `json:"after_cancel_ms"`
+	OutputID  string  `json:"output_id"`
+	Flat      []leaf  `json:"flat"`
+	DType     string  `json:"dtype"`
+	Err       string  `json:"err"`
+	IsErr     bool    `json:"is_err"`
+	ErrFlag   bool    `json:"err_flag"` // engine mode: the outputIsError flag
+	ElapsedMS float64 `json:"elapsed_ms"`
+	CancelMS  float64 `json:"cancel_ms"` // time of caller cancellation relative to run start, -1 if none
+	AfterMS   float64 `json:"after_cancel_ms"`
 }
 
 type scenarioResult struct {
@@ -322,7 +322,6 @@ func settle(ms int) (string, []string) {
 		time.Sleep(5 * time.Millisecond)
 	}
 }
-
 
 func engineParse(book *scriptBook, sc *scenario) (engine.Workflow, error) {
 	if sc.Cwd != "" {
